@@ -76,7 +76,8 @@ func rulesC10(r *Run) {
 	ruleFixBlockLaunch(r, "R3")
 	ruleSkipRecoveredChecks(r, "R3")
 	ruleRecoveryNoEarlyWrite(r, "R3")
-	r.Expect("R3", 29)
+	ruleRecoveryPersistsFixes(r, "R3")
+	r.Expect("R3", 31)
 
 	r.Kind("R4", "K1+K3")
 	ruleRecoveryDeferred(r, "R4", m)
@@ -1257,8 +1258,19 @@ func ruleNoPanicSites(r *Run, rule string) {
 						}
 					}
 				}
-				if fn.Key == smKey("writeEverything") || last.From == smKey("writeEverything") {
-					exempt = true // default case: unknown object kind (cannot be produced by walk.Plan; C04-R1 checks exhaustiveness)
+				// the default case of a switch over the object kind: an unknown kind cannot be produced by walk.Plan
+				// (C04-R1 checks that every kind has its case), wherever that switch is written
+				for ci := len(p.Ev) - 2; ci >= 0 && !exempt; ci-- {
+					e := p.Ev[ci]
+					if e.Kind != EvBranch {
+						continue // (the arguments of the fatal call)
+					}
+					if e.Tag != nil && !e.Taken {
+						if tv, ok := fl.Info.Types[e.Tag]; ok && ShortType(tv.Type) == "workflow.ObjectType" {
+							exempt = true
+						}
+					}
+					break
 				}
 				if exempt {
 					exemptSites++
@@ -1683,4 +1695,129 @@ func callerNames(g *CallGraph, key string) []string {
 		set[ShortFn(e.Caller)] = true
 	}
 	return sortedKeys(set)
+}
+
+// ruleRecoveryPersistsFixes (D29): fixPlan repairs the recovered plan only in memory. On the path that
+// resumes execution, Recovery must make those repairs durable for every kind of object before it goes on —
+// a sub-object repaired there is never written again once its parent has been stored as finished, so a second
+// crash would leave it Running for good — and it must write children before their parents, or a crash during
+// these very writes leaves a finished parent over an unwritten child.
+func ruleRecoveryPersistsFixes(r *Run, rule string) {
+	fn := r.fnByKey(rule, smKey("Recovery"))
+	if fn == nil {
+		return
+	}
+	fl, paths, ok := r.flowPaths(rule, fn)
+	if !ok {
+		return
+	}
+	g := r.P.CallGraph()
+	all := []string{"UpdatePlan", "UpdateBlock", "UpdateChecks", "UpdateSequence", "UpdateAction"}
+	updatesReached := func(key string) map[string]bool {
+		out := map[string]bool{}
+		for k := range g.Reach([]string{key}, func(e CallEdge) bool {
+			return strings.HasPrefix(e.Callee, pkgSM+".") || strings.HasPrefix(e.Callee, "workflow/storage.")
+		}) {
+			if strings.HasPrefix(k, "workflow/storage.") {
+				out[k[strings.LastIndex(k, ".")+1:]] = true
+			}
+		}
+		return out
+	}
+	bad := ""
+	var bpos = fn.Decl.Pos()
+	n := 0
+	writers := map[string]bool{}
+	for i := range paths {
+		p := &paths[i]
+		if p.Exit != ExitReturn {
+			continue
+		}
+		next := nextOf(fl, p)
+		if next == "Start" || next == "End" || next == "" || next == "nil" {
+			continue
+		}
+		n++
+		got := map[string]bool{}
+		for _, e := range p.Ev {
+			if name, isU := isUpdaterCall(e); isU {
+				got[name] = true
+			}
+			if e.Kind == EvCall && !e.Inlined {
+				if k := CalleeKey(e); strings.HasPrefix(k, pkgSM+".") {
+					ur := updatesReached(k)
+					for name := range ur {
+						got[name] = true
+					}
+					if len(ur) == len(all) {
+						writers[k] = true
+					}
+				}
+			}
+		}
+		var missing []string
+		for _, name := range all {
+			if !got[name] {
+				missing = append(missing, name)
+			}
+		}
+		if len(missing) > 0 && bad == "" {
+			bad, bpos = "the path of Recovery that resumes execution (successor "+next+") does not write every kind of object fixPlan may have repaired (missing: "+strings.Join(missing, ", ")+"): a sub-object repaired only in memory is never written again once its parent is stored as finished, and a second crash leaves it Running in a plan that ends Completed", fn.Decl.Pos()
+		}
+	}
+	if n == 0 {
+		r.Unresolved(rule, "Recovery path that resumes execution")
+		return
+	}
+	r.Check(rule, "Recovery:repairs-made-durable", bpos, bad == "", "%s", orOK(bad, "every object kind is written on the resuming path"))
+	// children before parents: the function doing these writes must not write in walk order (parents first)
+	badOrder := ""
+	var opos = fn.Decl.Pos()
+	for k := range writers {
+		w := r.P.Funcs[k]
+		if w == nil || w.Decl.Body == nil {
+			continue
+		}
+		info := w.Pkg.TypesInfo
+		descending, walkOrder := false, false
+		writesIn := func(body ast.Node) bool {
+			found := false
+			ast.Inspect(body, func(x ast.Node) bool {
+				if c, ok := x.(*ast.CallExpr); ok {
+					if f, ok := calleeFunc(info, c); ok {
+						fk := FuncKey(f)
+						if strings.HasPrefix(fk, "workflow/storage.") && strings.Contains(fk, ".Update") {
+							found = true
+						} else if strings.HasPrefix(fk, pkgSM+".") && len(updatesReached(fk)) > 0 {
+							found = true
+						}
+					}
+				}
+				return !found
+			})
+			return found
+		}
+		ast.Inspect(w.Decl.Body, func(x ast.Node) bool {
+			switch l := x.(type) {
+			case *ast.RangeStmt:
+				if c, ok := ast.Unparen(l.X).(*ast.CallExpr); ok {
+					if f, ok := calleeFunc(info, c); ok && FuncKey(f) == "workflow/utils/walk.Plan" && writesIn(l.Body) {
+						walkOrder = true
+						opos = l.Pos()
+					}
+				}
+			case *ast.ForStmt:
+				if post, ok := l.Post.(*ast.IncDecStmt); ok && post.Tok == token.DEC && writesIn(l.Body) {
+					descending = true
+				}
+			}
+			return true
+		})
+		if (walkOrder || !descending) && badOrder == "" {
+			badOrder = ShortFn(k) + " writes the objects in walk order (an object before what it contains): a crash during these writes can leave a parent stored as finished over a child whose repair was not written yet, which the next recovery then never looks at again — the repairs must be written children first"
+		}
+	}
+	if len(writers) > 0 {
+		r.Check(rule, "Recovery:repairs-written-children-first", opos, badOrder == "", "%s", orOK(badOrder, "written from the end of the walk backwards"))
+	}
 }
